@@ -63,10 +63,23 @@ def _setup():
 TLEN = 40  # fixed table length (one jit cache entry)
 
 
-def run_data(vals, P, max_epochs, rb, nb):
-    """Run the real fit_to_data; nb = training batches (= optimiser updates) per epoch."""
+def _as_kind(v, kind):
+    """The integer argument written as the caller might pass it: python int, NumPy integer, 0-d NumPy / jax integer array."""
+    if kind == 1:
+        return np.int64(v)
+    if kind == 2:
+        return np.asarray(v)
+    if kind == 3:
+        return np.int32(v)
+    return int(v)
+
+
+def run_data(vals, P, max_epochs, rb, nb, kinds=(0, 0)):
+    """Run the real fit_to_data; nb = training batches (= optimiser updates) per epoch.  kinds: how max_patience and
+    max_epochs are typed (seeded change C16d disabled early stopping for non-`int` patience)."""
     s = _setup()
     jnp = s["jnp"]
+    P, max_epochs = _as_kind(P, kinds[0]), (_as_kind(max_epochs, kinds[1]) if kinds[1] in (0, 1, 3) else int(max_epochs))
     table = np.full(TLEN, 9999, dtype=np.int64)
     for e, v in enumerate(vals, start=1):
         table[e * nb] = v
@@ -202,13 +215,14 @@ def run(ctx):
     for case, mout in zip(cases, model):
         if case[0] == "data":
             _, kind, vals, P, m, rb, nb = case
-            obs = run_data(vals, P, m, rb, nb)
+            kinds = (int(r.integers(0, 4)), int(r.integers(0, 2)) * 1) if r.random() < 0.3 else (0, 0)
+            obs = run_data(vals, P, m, rb, nb, kinds)
             a, nt, nv = map(int, mout.split())
             exp = (a * nb, nt, nv)
             got = (obs[0], len(obs[1]), len(obs[2]))
             u1.count(case, nontrivial=(nv < min(m, len(vals)) or (rb and a != nv)), tag=kind)
             errs = oracle_data(vals, P, m, rb, nb, obs)
-            cj = dict(loop="fit_to_data", vals=vals, max_patience=P, max_epochs=m, return_best=rb, batches_per_epoch=nb)
+            cj = dict(loop="fit_to_data", vals=vals, max_patience=P, max_epochs=m, return_best=rb, batches_per_epoch=nb, arg_kinds=list(kinds))
             if len(u1.hashes) % 400 == 1:
                 ctx.sample(dict(case=cj, model=exp, observed=got))
             if exp != got or errs:
@@ -259,7 +273,7 @@ def run(ctx):
 def replay(ctx, rep):
     c = rep["case"]
     if c.get("loop") == "fit_to_data":
-        obs = run_data(c["vals"], c["max_patience"], c["max_epochs"], c["return_best"], c["batches_per_epoch"])
+        obs = run_data(c["vals"], c["max_patience"], c["max_epochs"], c["return_best"], c["batches_per_epoch"], tuple(c.get("arg_kinds", (0, 0))))
         errs = oracle_data(c["vals"], c["max_patience"], c["max_epochs"], c["return_best"], c["batches_per_epoch"], obs)
         m = ctx.model([f"c16.data {c['max_patience']} {c['max_epochs']} {int(c['return_best'])} {','.join(map(str, c['vals'])) or '-'}"])[0]
         a, nt, nv = map(int, m.split())
